@@ -48,17 +48,28 @@ def run(args):
     rng = np.random.default_rng(args.seed)
     drv = LeanDriver()
     nrand = {"quick": 300, "thorough": 5000}[args.tier] * (4 if args.mode == "search" else 1)
-    R.rule = ("per rate function: voltage grid −150..100 step 0.25 (offset 0.125, avoiding the removable singularities "
-              "handled by C03) + seeded random (v, vt/taumax/vx); per current: random states/params; "
+    R.rule = ("per rate function: voltage grid −150..100 step 0.25 (offset 0.125) + ladders v_sing ± 10^-k (k=1..8) towards every removable singularity "
+              "(the 0/0 points themselves are C03's) + seeded random (v, vt/taumax/vx); per current: random states/params; "
               "distinct = distinct argument tuples; non-trivial = published value non-zero")
     grid = np.arange(-150.0 + 0.125, 100.0, 0.25 if args.tier == "thorough" else 1.0)
     for (mech, gname, extra, specs, sing) in GATES:
         cls = CLS[mech]
-        vs = np.concatenate([grid, rng.uniform(-150, 100, nrand)])
+        # ladder towards every removable singularity of the rate expression: v_sing ± 10^-k, k = 1..8 (default and shifted vt);
+        # the published value is a smooth function there, and so must the implementation be (cancellation in x/(exp(x)-1)
+        # costs about eps/|x| of relative accuracy on both sides, which the tolerance below accounts for)
+        lad_v, lad_e = [], []
+        for (pk, off) in sing:
+            for shift in ([0.0] if pk is None else [-60.0, -52.5, -67.0]):
+                for k in range(1, 9):
+                    for sgn in (-1.0, 1.0):
+                        lad_v.append((shift if pk is not None else 0.0) + off + sgn * 10.0 ** (-k)); lad_e.append(shift)
+        nl = len(lad_v)
+        vs = np.concatenate([grid, rng.uniform(-150, 100, nrand), np.asarray(lad_v, dtype=np.float64)])
         ex = []
         for (nm, lo, hi) in extra:
             dflt = {"vt": -60.0, "taumax": 4000.0, "vx": 2.0}[nm]
-            ex.append(np.concatenate([np.full(len(grid), dflt), rng.uniform(lo, hi, nrand)]))
+            ex.append(np.concatenate([np.full(len(grid), dflt), rng.uniform(lo, hi, nrand),
+                                      np.asarray(lad_e, dtype=np.float64) if (nm == "vt" and nl) else np.full(nl, dflt)]))
         a, b = getattr(cls, gname)(jnp.asarray(vs), *[jnp.asarray(e) for e in ex])
         a = np.asarray(a, dtype=np.float64) * np.ones(len(vs)); b = np.asarray(b, dtype=np.float64) * np.ones(len(vs))
         # model (Gen) and Spec via the driver
@@ -73,20 +84,23 @@ def run(args):
         n = len(vs)
         for i in range(n):
             R.evaluations += 1
-            near = any(abs((vs[i] - (ex[pk][i] if pk is not None else 0.0)) - off) < 1e-6 for (pk, off) in sing)
-            if near:
-                R.count("skipped-near-singular"); continue
+            dist = min([abs((vs[i] - (ex[pk][i] if pk is not None else 0.0)) - off) for (pk, off) in sing] or [1.0])
+            if dist < 1e-9:          # exactly at / within a few ulps of the 0/0 point: C03's enumeration (known finding F4)
+                R.count("skipped-at-singularity"); continue
+            if dist < 1e-1:
+                R.count("near-singular-ladder")
+            reltol = 1e-9 + 1e-14 / dist
             inp = dict(fn=f"{mech}.{gname}", v=float(vs[i]), **{nm: float(e[i]) for (nm, _, _), e in zip(extra, ex)})
             for k, (yi, nmk) in enumerate(((a[i], "0"), (b[i], "1"))):
                 ym = mo[i][nmk] if mo[i] else None
                 ys = so[k * n + i]
-                if ym is None or not close(float(yi), ym, rel=1e-9, abs_=1e-13, maxulp=512):
+                if ym is None or not close(float(yi), ym, rel=reltol, abs_=1e-13, maxulp=512):
                     R.disagree("rate", fn=f"{mech}.{gname}", out=k, impl=float(yi), model=ym, input=inp)
                 if ys is None:
                     continue
                 if ys != 0:
                     R.distinct.add((mech, gname, k, float(vs[i]), tuple(float(e[i]) for e in ex)))
-                if not (abs(float(yi) - ys) <= 1e-9 * abs(ys) + 1e-6):
+                if not (abs(float(yi) - ys) <= reltol * abs(ys) + 1e-6):
                     vx_sum = vs[i] + ex[0][i] if mech == "CaT" else None
                     if mech == "CaT" and k == 1 and vx_sum > -20.0:
                         sig = dict(kind="clip-changes-kinetics", fn="CaT.tau_u")
